@@ -390,7 +390,7 @@ fn run_inner(property: &str, thorough: bool, deadline: Instant) -> Vec<PartOut> 
             let plan = |list: &[(Alphabet, u32, u32)], seeds: &[u64]| -> Vec<(CCfg, u32)> {
                 let mut v = Vec::new();
                 for &(alphabet, q, t) in list {
-                    let seeds: &[u64] = if alphabet == Alphabet::Full {
+                    let seeds: &[u64] = if alphabet == Alphabet::Full || alphabet == Alphabet::Recovery {
                         &seeds[..1]
                     } else {
                         seeds
@@ -428,7 +428,7 @@ fn run_inner(property: &str, thorough: bool, deadline: Instant) -> Vec<PartOut> 
             // full alphabet stays shallow, the minimal one goes deep. The RNG seed only matters
             // once PROBE_BW is entered.
             let seeds: &[u64] = if thorough { &[0, 1, 2] } else { &[0] };
-            let bbr = plan(&[(Alphabet::Full, 4, 5), (Alphabet::Minimal, 8, 9), (Alphabet::Recovery, 7, 9)], seeds);
+            let bbr = plan(&[(Alphabet::Full, 4, 5), (Alphabet::Minimal, 8, 9), (Alphabet::Recovery, 6, 8)], seeds);
             parts.push(run_part::<congestion::CcSys<congestion::KBbr>>(
                 "C12",
                 Mode::Bfs,
